@@ -22,9 +22,12 @@ rm -f tarpc/tests/seeded_demo_$n.rs
 unset CARGO_TARGET_DIR
 cd /verif
 for c in "$@"; do
+  find out/$c -name 'replay-*.json' -delete 2>/dev/null
+  rm -f $out/replay-*_$c.json
   VERIF_REPO=$wt timeout 3000 ./check $c quick > $out/check_$c.txt 2>&1
   echo "exit=$?" >> $out/check_$c.txt
-  for f in out/$c/replay-*.json; do [ -f "$f" ] && cp $f $out/$(basename $f .json)_$c.json; done
+  # keep the replays the VIOLATION lines name (first three)
+  for f in $(grep -o 'replay=[^ ]*' $out/check_$c.txt | head -3 | cut -d= -f2); do [ -f "$f" ] && cp $f $out/$(basename $f .json)_$c.json; done
 done
 cd $wt && git checkout -q -- tarpc/src plugins/src
 python3 - "$name" "$wt" "$n" "$@" <<'PY'
